@@ -577,6 +577,9 @@ def run_harness(exe, path, ncases, rundir, env=None, timeout=3000):
     first = 0
     while first < ncases:
         rc, out, err = vlib.sh([exe, "run", path, str(first), rundir], timeout=timeout, env=env)
+        if os.environ.get("VERIF_KEEP"):
+            with open(path + ".out", "a") as fo:
+                fo.write(out + "\n#### rc=%s first=%d\n" % (rc, first))
         for l in out.splitlines()[:3]:
             if l.startswith("INF "):
                 HARNESS_INF[0] = l.split()[1]
